@@ -125,6 +125,14 @@ impl Prop for C03 {
         Some((out, tags))
     }
 
+    fn canon(&mut self, input: &Val) -> Option<Val> {
+        let l = input.as_l()?;
+        if l.len() != 2 {
+            return None;
+        }
+        Some(Val::L(vec![canon_table(&l[0])?, canon_text(&l[1])?]))
+    }
+
     fn selfcheck(&mut self) -> Vec<String> {
         let mut e = ws_table_selfcheck();
         e.extend(regex_ws_selfcheck());
